@@ -143,9 +143,26 @@ def _run_structural(ctx):
     for f in idx.functions.values():
         if f.module.name != LOCAL or f.key == hc.key:
             continue
+        # names that hold worker tasks in this function: bound (assignment, loop target, comprehension) from an expression over self.tasks
+        from_tasks = set()
+        for n in ast.walk(f.node):
+            src, tgt = None, None
+            if isinstance(n, ast.Assign):
+                src, tgt = n.value, n.targets
+            elif isinstance(n, (ast.For, ast.AsyncFor)):
+                src, tgt = n.iter, [n.target]
+            elif isinstance(n, ast.comprehension):
+                src, tgt = n.iter, [n.target]
+            elif isinstance(n, ast.NamedExpr):
+                src, tgt = n.value, [n.target]
+            if src is not None and ("self.tasks" in ast.unparse(src) or any(isinstance(x, ast.Name) and x.id in from_tasks for x in ast.walk(src))):
+                for t_ in tgt:
+                    from_tasks |= {x.id for x in ast.walk(t_) if isinstance(x, ast.Name)}
         for n in walk_no_nested(f.node):
             if isinstance(n, ast.Call) and isinstance(n.func, ast.Attribute) and n.func.attr == "cancel" and f.cls is not None and f.cls.name == "Scheduler":
-                if f.name not in ("cancel_task", "kill"):
+                recv_ = n.func.value
+                is_worker = "self.tasks" in ast.unparse(recv_) or any(isinstance(x, ast.Name) and x.id in from_tasks for x in ast.walk(recv_))
+                if f.name not in ("cancel_task", "kill") and is_worker:
                     r1.violation(f"{f.module.relpath}::{f.qual}", "worker tasks are cancelled outside cancel_task/kill", loc(n, f.module))
 
     # ---------------- R2 detached tasks, owners of the tables
